@@ -116,10 +116,10 @@ Proof.
   - eapply exit_common_linv; eauto.
 Qed.
 
-Lemma plthook_entry_linv : forall s kd k loc arg, linv s -> linv (plthook_entry s kd k loc arg).
+Lemma plthook_push_linv : forall s kd k loc arg, linv s -> linv (plthook_push s kd k loc arg).
 Proof.
-  intros s kd k loc arg [A [B C]]. unfold plthook_entry.
-  set (e := new_ent s true k loc).
+  intros s kd k loc arg [A [B C]]. unfold plthook_push.
+  set (e := new_ent s true k loc (kind_of kd arg)).
   assert (He : e_depth e = N.of_nat (length (rs s))) by (unfold e, new_ent; simpl; exact A).
   pose proof (rtd_shape e (rs s)) as R.
   destruct (is_flush kd).
@@ -128,6 +128,12 @@ Proof.
     constructor; [|exact C]. unfold jb_ok; simpl. repeat split; auto; try (rewrite A, R1; lia). rewrite R1, R2; exact He.
   - destruct kd; unfold linv; simpl; repeat split; auto; try (rewrite A; lia).
     constructor; [|exact C]. unfold jb_ok; simpl. repeat split; auto. rewrite A; lia.
+Qed.
+
+Lemma plthook_entry_linv : forall s kd k loc arg, linv s -> linv (plthook_entry s kd k loc arg).
+Proof.
+  intros s kd k loc arg H. unfold plthook_entry. apply plthook_push_linv. destruct (inexc s); [|exact H].
+  apply rehook_exception_linv with (fa := loc) in H. destruct H as [A [B C]]. repeat split; auto.
 Qed.
 
 Lemma follow_linv : forall fuel s v n s' v' n', linv s -> follow fuel s v n = Some (s', v', n') -> linv s'.
@@ -160,7 +166,11 @@ Proof.
   - destruct (follow _ s _ 0) as [[[s2 v] n]|] eqn:Ef; [|discriminate]. inversion Hs; subst. eapply follow_linv; eauto.
   - inversion Hs; subst. destruct H as [A [B C]]. repeat split; auto.
   - inversion Hs; subst. exact H.
-  - inversion Hs; subst. destruct H as [A [B C]]. repeat split; auto.
+  - inversion Hs; subst. unfold do_resume.
+    assert (H1 : linv (if inexc (with_m s (upd (m s) s0 r)) then rehook_exception (with_m s (upd (m s) s0 r)) s0
+                       else with_m s (upd (m s) s0 r))).
+    { destruct (inexc _); [apply rehook_exception_linv|]; apply with_m_linv, H. }
+    destruct H1 as [A [B C]]. repeat split; auto.
   - inversion Hs; subst. unfold do_catch. destruct (inexc s); [|exact H].
     apply rehook_exception_linv with (fa := fa) in H. destruct H as [A [B C]]. repeat split; auto.
   - inversion Hs; subst. apply with_m_linv, H.
